@@ -10,6 +10,8 @@ Tie: T + X.
      checker on the generated schemas and closes the finite table obligations by vm_compute.
   X  the real GCPSlimInstanceConfig / AzureSlimInstanceConfig (create -> to_dict -> JSON -> from_dict ->
      quantified_resources) against the generated definitions, for every machine type x disk option x packing.
+Oracle (implementation only): the clauses of the theorems evaluated on the real classes for every machine type of both tables
+  (+ EXTRA_CORES, + corpus/C13), comparing with the instance's actual resources (res_info) in exact integers; see _check_config.
 """
 import ast
 import json
@@ -32,17 +34,31 @@ META = dict(
     level_text='Machine-checked theorems (Coq 8.16, closed under the global context) about definitions regenerated from the current source: '
                'for both clouds, every machine size, every resource of the worker (compute, memory, boot/data/local-ssd disk, vm, ip fee, '
                'service fee, support fees, accelerators) and EVERY set of jobs whose cores and memory fit on the worker, the billed quantities '
-               'add up to at most the whole worker\'s (C13_packed_le_whole); on the real gcp/azure pool tables, for all packings of packable '
+               'add up to at most the whole worker\'s (C13_packed_le_whole); for every worker size (power of two or not) and every job the '
+               '1024ths of the worker it is billed are its exact share of the cores rounded DOWN to a whole 1024th, never a whole 1024th '
+               'less (C13_job_share_floor); packable requests that fill ALL the cores of a power-of-two pool worker (<= 256 cores) are '
+               'billed, together, exactly the whole worker (C13_pool_exact_packing); on the real gcp/azure pool tables, for all packings of packable '
                'core requests (250 mcpu * 2^k, memory derived from the cores) the same holds with the machine table\'s memory '
                '(C13_pool_packing_*; the float memory conversion equals the integer formula on every packable count of every worker type, '
                'finite domain swept completely); a job with all cores and memory is billed exactly the full amount of every resource and the '
                'all-cores pool job is the whole worker; the per-job external disk is billed by the request alone; for every well-formed '
                'instance config (all field values, all resource lists) from_dict(to_dict cfg) = cfg, so it bills identical quantities '
-               '(proved-sound symbolic checker run on the regenerated schemas).',
+               '(proved-sound symbolic checker run on the regenerated schemas). '
+               'Search on the real classes (oracle): every machine type of the gcp and azure MACHINE_TYPE_TO_PARTS tables read at run time '
+               '(pool shapes and job-private shapes with 12/20/24/48/72/96 cores) plus an explicit list of odd core counts set by hand on a '
+               'real job-private configuration, with the all-cores job and jobs of any size (halves, thirds, 250 mcpu, one core, cores-1, '
+               'all single / quarter cores, random splits); the billed quantities are compared in exact integers with the instance\'s ACTUAL '
+               'resources read from the resource objects (disk GiB x 1024, 1024/1024 of vm and ip fee, accelerator count x 1024, cores x 1000, '
+               'memory MiB), not with what quantified_resources makes of the all-cores job: failure classes whole-worker-underbilled / '
+               '-overbilled, job-underbilled, packed-exceeds-instance, full-pool-worker-underbilled (each the run-time form of one of the '
+               'theorems above).',
     level_note='Trusted: Coq kernel; the AST extractor harness/translate/c13_schema.py (class bodies -> formulas/schemas; fail-closed, and the real '
                'classes are run against the generated definitions on every run); JSON encode/decode taken as the identity on int/str/bool/dict '
                '(exercised through json.dumps/loads in the run); ProductVersions stubbed (resource names only). Pool workers whose core count '
-               'is not a power of two (<= 256) trip the assertion in quantified_resources and bill nothing: excluded, as in the code.',
+               'is not a power of two (<= 256) trip the assertion in quantified_resources and bill nothing: excluded, as in the code '
+               '(job-private configurations of any core count are covered). The oracle\'s table class name -> billing kind '
+               '(KIND_OF_CLASS) mirrors GenLemmas.kind_of_class; an unknown class disables the absolute comparison for that configuration '
+               '(counted in the evidence) while the translator / classes_covered fail closed on it.',
     partial=False,
 )
 TRUSTED = ['extractor harness/translate/c13_schema.py (Python class bodies -> quantity formulas and to_dict/from_dict schemas), smoke-tested '
@@ -668,7 +684,7 @@ def _check_config(c, r):
             out.append(('different-resources', 'a job without external disk is billed other resources than the whole worker', {'config': ck, 'job': job},
                         [nm for nm, _ in whole], [nm for nm, _ in b0]))
             continue
-        if inst is not None and 0 <= job[0] <= cap:
+        if inst is not None and 0 <= job[0] < cap:      # (the all-cores job: whole-worker-underbilled above)
             # no under-billing (C13_job_share_floor): the 1024ths billed are the job's exact share 1024*cpu/(cores*1000) rounded DOWN —
             # a whole 1024th or more below the share (or fewer millicores / MiB than the job has) is billed to nobody
             for (nm, q), (_, kind, unit, full) in zip(b0, inst):
